@@ -169,5 +169,5 @@ func TestVerifC09HTTP1(t *testing.T) {
 // mosn.io/mosn/pkg/verifrt/c09/sched.go. Built with the "c09http" rewrite set (the "proxy" set plus
 // pkg/stream/http: pool mutex, atomics, the serve goroutine and its channels are scheduling points).
 func TestVerifC09HTTP1Schedules(t *testing.T) {
-	c09.MainSchedules(t, c09HTTP{}, c09.DefaultScenarios(), 1, 2, 2)
+	c09.MainSchedules(t, c09HTTP{}, append(c09.DefaultScenarios(), c09.DoomedScenarios(true)...), 1, 2, 2)
 }
